@@ -12,6 +12,8 @@ Definition oid_dec : forall a b : option id, {a = b} + {a <> b}.
 Proof. decide equality; apply Pos.eq_dec. Defined.
 Definition oN_dec : forall a b : option N, {a = b} + {a <> b}.
 Proof. decide equality; apply N.eq_dec. Defined.
+Definition ooname_dec : forall a b : option (option name), {a = b} + {a <> b}.
+Proof. decide equality; apply oname_dec. Defined.
 Definition oZ_dec : forall a b : option Z, {a = b} + {a <> b}.
 Proof. decide equality; apply Z.eq_dec. Defined.
 Definition dim_dec : forall a b : dim, {a = b} + {a <> b}.
@@ -40,7 +42,7 @@ Proof. decide equality; [apply Pos.eq_dec | apply N.eq_dec]. Defined.
 Definition onid_dec : forall a b : option name * id, {a = b} + {a <> b}.
 Proof. decide equality; [apply Pos.eq_dec | apply oname_dec]. Defined.
 Definition value_dec : forall a b : value, {a = b} + {a <> b}.
-Proof. decide equality; try apply Pos.eq_dec; try apply oname_dec; try apply oid_dec; apply oN_dec. Defined.
+Proof. decide equality; try apply Pos.eq_dec; try apply oname_dec; try apply oid_dec. Defined.
 Definition node_dec : forall a b : node, {a = b} + {a <> b}.
 Proof.
   decide equality; try apply Pos.eq_dec; try apply oname_dec; try apply N.eq_dec; try apply oZ_dec.
@@ -66,7 +68,7 @@ Proof.
   decide equality.
   - apply value_dec. - apply node_dec. - apply graph_dec. - apply shape_dec. - apply ty_dec.
   - apply list_eq_dec, nn_dec. - apply meta_dec. - apply attr_dec. - apply list_eq_dec, Z.eq_dec.
-  - apply func_dec. - apply model_dec.
+  - apply func_dec. - apply model_dec. - apply oname_dec.
 Defined.
 Definition cell_eqb (a b : cell) : bool := if cell_dec a b then true else false.
 
@@ -80,10 +82,10 @@ Section Rename.
   Definition r_dev (d : devcfg) := Dev (dc_cfg d) (dc_stage d) (map r_spec (dc_specs d)).
   Definition r_kv {K} (kv : K * id) : K * id := (fst kv, f (snd kv)).
   Definition r_attrv (a : attrv) : attrv :=
-    match a with AGraph g => AGraph (f g) | AGraphs gs => AGraphs (map f gs) | x => x end.
+    match a with AGraph g => AGraph (f g) | AGraphs gs => AGraphs (map f gs) | ATensor t => ATensor (f t) | x => x end.
   Definition rename_cell (c : cell) : cell :=
     match c with
-    | CValue v => CValue (Val (v_name v) (ro (v_type v)) (ro (v_shape v)) (v_doc v) (v_const v)
+    | CValue v => CValue (Val (v_name v) (ro (v_type v)) (ro (v_shape v)) (v_doc v) (ro (v_const v))
                               (f (v_mp v)) (f (v_meta v)))
     | CNode n => CNode (Nod (n_name n) (n_domain n) (n_op n) (n_overload n) (n_version n)
                             (map ro (n_inputs n)) (map f (n_outputs n)) (map r_kv (n_attrs n)) (n_doc n)
@@ -95,13 +97,13 @@ Section Rename.
     | CAttr a => CAttr (Att (a_name a) (r_attrv (a_val a)) (a_doc a))
     | CFunc x => CFunc (Fun (f_domain x) (f_name x) (f_overload x) (f (f_graph x)) (map r_kv (f_attrs x)))
     | CModel m => CModel (Mod (f (md_graph m)) (map f (md_funcs m)) (md_info m) (f (md_mp m)) (f (md_meta m)))
-    | CShape _ | CType _ | CDict _ | CObj _ => c
+    | CShape _ | CType _ | CDict _ | CObj _ | CTensor _ => c
     end.
   Definition rename_op (o : op) : op :=
     match o with
     | VSetName v n => VSetName (f v) n
     | VSetDoc v n => VSetDoc (f v) n
-    | VSetConst v t => VSetConst (f v) t
+    | VSetConst v t => VSetConst (f v) (ro t)
     | VSetDtype v d => VSetDtype (f v) d
     | VSetType v t => VSetType (f v) t
     | VSetShapeDim v i d => VSetShapeDim (f v) i d
@@ -118,6 +120,8 @@ Section Rename.
     | GAppendNode g opn ins outs nm => GAppendNode (f g) opn (map ro ins) outs nm
     | GRemoveNode g n => GRemoveNode (f g) (f n)
     | GOpsetSet g k s => GOpsetSet (f g) k s
+    | ASetDoc a d => ASetDoc (f a) d
+    | ASetName a n => ASetName (f a) n
     end.
 End Rename.
 
@@ -227,6 +231,7 @@ with proj_n (n : cnode) : list N :=
 with proj_a (a : cattr) : list N :=
   match a with
   | CAV nm _ _ _ => [MK 20; (nm + 1)%N]
+  | CAT nm _ tn _ => [MK 26; (nm + 1)%N; match tn with Some o => eo o | None => BADTOK end]
   | CAR nm _ r _ => [MK 21; (nm + 1)%N; (r + 1)%N]
   | CAG nm g _ => [MK 22; (nm + 1)%N] ++ proj_g g ++ [MK 23]
   | CAGs nm gs _ => [MK 24; (nm + 1)%N] ++ flat_map proj_g gs ++ [MK 25]
